@@ -790,6 +790,64 @@ Proof.
         induction l as [|[k g] r IH]; cbn; [discriminate|]. destruct (Z.eqb_spec c k); [now left|]. intros H. right. now apply IH.
 Qed.
 
+(* ---------- create_transport_costs: the errorCodes loop ---------- *)
+Lemma error_loop_some ec : forall i tt dd x y, error_loop i ec tt dd = Some (x, y) ->
+  List.length x = List.length ec /\ List.length y = List.length ec.
+Proof.
+  induction ec as [|e r IH]; intros i tt dd x y H; cbn [error_loop] in H.
+  - inversion H. split; reflexivity.
+  - destruct (if 0 <? e then Some (-1, -1)
+              else match nth_error tt i, nth_error dd i with Some a, Some b => Some (a, b) | _, _ => None end) as [[a b]|];
+      [|discriminate].
+    destruct (error_loop (S i) r tt dd) as [[x' y']|] eqn:Er; [|discriminate].
+    inversion H; subst. destruct (IH _ _ _ _ _ Er) as [Hx Hy]. cbn [List.length]. split; congruence.
+Qed.
+
+Definition no_data (i : nat) (ec tt dd : list Z) : Prop :=
+  exists k, (k < List.length ec)%nat /\ nth k ec 1 <= 0 /\ (List.length tt <= i + k \/ List.length dd <= i + k)%nat.
+
+Lemma error_loop_none ec : forall i tt dd, error_loop i ec tt dd = None <-> no_data i ec tt dd.
+Proof.
+  induction ec as [|e r IH]; intros i tt dd; unfold no_data; cbn [error_loop].
+  - split; [discriminate|]. intros (k & Hk & _). cbn in Hk. lia.
+  - assert (Hshift : no_data (S i) r tt dd <-> exists k, (S k < List.length (e :: r))%nat /\ nth (S k) (e :: r) 1 <= 0 /\
+                       (List.length tt <= i + S k \/ List.length dd <= i + S k)%nat).
+    { unfold no_data. split; intros (k & Hk & Hn & Hl); exists k; cbn [List.length nth] in *; repeat split; try lia; exact Hn. }
+    destruct (Z.ltb_spec 0 e) as [Hpos|Hle].
+    + destruct (error_loop (S i) r tt dd) as [[x y]|] eqn:Er.
+      * split; [discriminate|]. intros (k & Hk & Hn & Hl). destruct k as [|k]; [cbn in Hn; lia|].
+        assert (Hnone : error_loop (S i) r tt dd = None) by (apply IH, Hshift; exists k; auto). congruence.
+      * split; [intros _|reflexivity]. apply IH, Hshift in Er. destruct Er as (k & H). exists (S k). exact H.
+    + destruct (nth_error tt i) as [a|] eqn:Ea; [destruct (nth_error dd i) as [b|] eqn:Eb|].
+      * assert (Hti : (i < List.length tt)%nat) by (apply nth_error_Some; congruence).
+        assert (Hdi : (i < List.length dd)%nat) by (apply nth_error_Some; congruence).
+        destruct (error_loop (S i) r tt dd) as [[x y]|] eqn:Er.
+        -- split; [discriminate|]. intros (k & Hk & Hn & Hl). destruct k as [|k]; [lia|].
+           assert (Hnone : error_loop (S i) r tt dd = None) by (apply IH, Hshift; exists k; auto). congruence.
+        -- split; [intros _|reflexivity]. apply IH, Hshift in Er. destruct Er as (k & H). exists (S k). exact H.
+      * split; [intros _|reflexivity]. apply nth_error_None in Eb. exists 0%nat. cbn [List.length nth]. repeat split; lia.
+      * split; [intros _|reflexivity]. apply nth_error_None in Ea. exists 0%nat. cbn [List.length nth]. repeat split; lia.
+Qed.
+
+Lemma matrix_step_spec_l m :
+  (matrix_data m = None <-> exists ec, m_errors m = Some ec /\ no_data 0 ec (m_travel m) (m_dist m))
+  /\ (forall ec x y, m_errors m = Some ec -> matrix_data m = Some (x, y) ->
+        List.length x = List.length ec /\ List.length y = List.length ec)
+  /\ (m_errors m = None -> matrix_data m = Some (m_travel m, m_dist m)).
+Proof.
+  unfold matrix_data. destruct (m_errors m) as [ec|].
+  - split; [|split].
+    + split.
+      * intros H. exists ec. split; [reflexivity|]. now apply error_loop_none.
+      * intros (ec' & E & H). inversion E; subst. now apply error_loop_none.
+    + intros ec' x y E H. inversion E; subst. exact (error_loop_some _ _ _ _ _ _ H).
+    + discriminate.
+  - split; [|split].
+    + split; [discriminate|]. intros (ec & E & _). discriminate.
+    + intros ec x y E. discriminate.
+    + reflexivity.
+Qed.
+
 (* ---------- witnesses for the known classes (evaluated, not assumed) ---------- *)
 Local Open Scope string_scope.
 Definition wt (x : Z) : tm := mkTm "t" (Some x).
